@@ -599,6 +599,14 @@ class Interp:
                 raise Undecided(f"missing argument {p}")
         return sub.run(A.strip_docstring(fnode.body))
 
+    def _call_closure(self, clo, args, kwargs=None):
+        if isinstance(clo.node, ast.Lambda):
+            sub = Interp(self.env, self.selfattrs, self.region, self.methods, self.cls_name, externals=self.externals)
+            for p, a in zip([x.arg for x in clo.node.args.args], args):
+                sub.env[p] = a
+            return sub.eval(clo.node.body)
+        return self.call_function(clo.node, args, kwargs or {})
+
     def exec_block(self, body):
         for st in body:
             self.exec(st)
@@ -1407,6 +1415,26 @@ class Interp:
         if name == "zip":
             seqs = [self.iterable(x, "zip") for x in self.eval_args(args)]
             return [tuple(x) for x in zip(*seqs)]
+        if name == "map" and isinstance(f, ast.Name) and len(args) >= 2:
+            seqs = [self.iterable(ev(x), "map") for x in args[1:]]
+            fnode = args[0]
+            out_ = []
+            for tup in zip(*seqs):
+                if isinstance(fnode, ast.Name) and fnode.id in ("list", "tuple") and fnode.id not in self.env:
+                    it_ = self.iterable(tup[0], "map")
+                    out_.append(list(it_) if fnode.id == "list" else tuple(it_))
+                    continue
+                if isinstance(fnode, ast.Name) and fnode.id in ("float", "int", "str") and fnode.id not in self.env:
+                    out_.append(tup[0] if fnode.id != "str" else str(tup[0]))
+                    continue
+                callee = ev(fnode)
+                if isinstance(callee, PyFunc):
+                    out_.append(callee.f(list(tup), {}))
+                elif isinstance(callee, Closure):
+                    out_.append(self._call_closure(callee, list(tup), {}))
+                else:
+                    raise Undecided("map() of an unmodelled callable")
+            return out_
         if name == "enumerate":
             s = ev(args[0])
             if not isinstance(s, (list, tuple)):
